@@ -1,3 +1,136 @@
 import Ptk.Proto
--- stub: the C14 model driver has not been written yet
-def main : IO Unit := Ptk.Proto.run fun _ => "bad-op"
+import Ptk.Model.C14
+open Ptk Ptk.Py Ptk.Proto Ptk.C14
+
+/-- scripted validator family used by the correspondence harness
+    (mode 0: accept everything; mode 1: reject iff `needle` occurs in the text;
+     error position: 0 = `arg`, 1 = index of the needle + `arg`, 2 = len(text) + `arg`) -/
+structure VSpec where
+  mode : Nat := 0
+  needle : Text := []
+  posMode : Nat := 0
+  arg : Int := 0
+
+def VSpec.toValidator (vs : VSpec) : Validator := fun t =>
+  if vs.mode = 0 then none else
+  match findSub? vs.needle t with
+  | none => none
+  | some k =>
+    some (match vs.posMode with
+      | 0 => vs.arg
+      | 1 => (k : Int) + vs.arg
+      | _ => (t.length : Int) + vs.arg)
+
+structure DSt where
+  st : St := St.fresh [] false false
+  vs : VSpec := {}
+
+def encOptStr : Option Text → String
+  | none => "N"
+  | some t => encStr t
+
+def encOptNat : Option Nat → String
+  | none => "N"
+  | some n => toString n
+
+def encV : VState → String
+  | .unknown => "U" | .valid => "V" | .invalid => "I"
+
+def encOut : Out → String
+  | .none => "-"
+  | .bool b => "b" ++ encBool b
+  | .accepted t => "acc:" ++ encStr t
+  | .rejected => "rej"
+  | .assertErr => "aerr"
+
+def showSt (s : St) (o : String) : String :=
+  s!"{s.idx} {s.cur} {encV s.vstate} {encOptStr s.search} {encOptNat s.pref} {encBool s.loading} {encBool s.vpending} {encBool s.hloaded} {encBool s.ehs} W {encList encStr s.work} H {encList encStr s.hist} S {encList encStr s.storage} P {encList encStr s.pending} {o}"
+
+def decStrs : List String → Option (List Text)
+  | [] => some []
+  | x :: xs => do pure ((← decStr x) :: (← decStrs xs))
+
+def parseKey : List String → Option Key
+  | ["char", c] => do
+    match (← decStr c) with
+    | [ch] => some (.char ch)
+    | _ => none
+  | ["backspace"] => some .backspace
+  | ["left"] => some .left
+  | ["right"] => some .right
+  | ["home"] => some .home
+  | ["end"] => some .endl
+  | ["up", a] => do pure (.up (← decInt a))
+  | ["down", a] => do pure (.down (← decInt a))
+  | ["c-p", a] => do pure (.ctrlP (← decInt a))
+  | ["c-n"] => some .ctrlN
+  | ["prevhist", a] => do pure (.prevHist (← decInt a))
+  | ["nexthist", a] => do pure (.nextHist (← decInt a))
+  | ["beginhist"] => some .beginHist
+  | ["endhist"] => some .endHist
+  | ["enter"] => some .enter
+  | _ => none
+
+def parseOp : List String → Option Op
+  | ["ins", d] => do pure (.insert (← decStr d))
+  | ["delb", n] => do pure (.delBefore (← decNat n))
+  | ["text", t] => do pure (.setText (← decStr t))
+  | ["cur", c] => do pure (.setCursor (← decInt c))
+  | ["left"] => some .left
+  | ["right"] => some .right
+  | ["home"] => some .home
+  | ["end"] => some .endl
+  | ["hb", c] => do pure (.histBack (← decInt c))
+  | ["hf", c] => do pure (.histFwd (← decInt c))
+  | ["goto", i] => do pure (.goTo (← decNat i))
+  | ["endhist"] => some .endHist
+  | ["aup", c, g] => do pure (.autoUp (← decInt c) (← decBool g))
+  | ["adown", c, g] => do pure (.autoDown (← decInt c) (← decBool g))
+  | ["ehs", b] => do pure (.setEhs (← decBool b))
+  | ["validate", b] => do pure (.validate (← decBool b))
+  | ["avalidate"] => some .asyncValidate
+  | ["accept", k] => do pure (.accept (← decBool k))
+  | ["append"] => some .append
+  | ["reset", t, c] => do pure (.reset (← decStr t) (← decNat c))
+  | ["startload"] => some .startLoad
+  | ["loadone"] => some .loadOne
+  | _ => none
+
+def stepLine (d : DSt) (toks : List String) : DSt × String :=
+  let v := d.vs.toValidator
+  match toks with
+  | "init" :: e :: w :: strs =>
+    match decBool e, decBool w, decStrs strs with
+    | some e, some w, some strs =>
+      let s := St.fresh strs e w
+      ({ d with st := s }, showSt s "-")
+    | _, _, _ => (d, "bad-op")
+  | ["val", m, nd, pm, a] =>
+    match decNat m, decStr nd, decNat pm, decInt a with
+    | some m, some nd, some pm, some a =>
+      ({ d with vs := { mode := m, needle := nd, posMode := pm, arg := a } }, showSt d.st "-")
+    | _, _, _, _ => (d, "bad-op")
+  | ["loadall"] =>
+    let s := loadAll d.st
+    ({ d with st := s }, showSt s "-")
+  | ["prompt", dflt] =>
+    match decStr dflt with
+    | some t => let s := promptStart d.st t; ({ d with st := s }, showSt s "-")
+    | none => (d, "bad-op")
+  | ["promptacc", dflt] =>
+    match decStr dflt with
+    | some t =>
+      match promptAcceptDefault v d.st t with
+      | (s, some r) => ({ d with st := s }, showSt s (encOut (.accepted r)))
+      | (s, none) => ({ d with st := s }, showSt s (encOut .rejected))
+    | none => (d, "bad-op")
+  | "key" :: rest =>
+    match parseKey rest with
+    | some k => let (s, o) := keyStep v d.st k; ({ d with st := s }, showSt s (encOut o))
+    | none => (d, "bad-op")
+  | _ =>
+    match parseOp toks with
+    | some op => let (s, o) := step v d.st op; ({ d with st := s }, showSt s (encOut o))
+    | none => (d, "bad-op")
+
+def main : IO Unit := runS stepLine {}
